@@ -24,6 +24,7 @@ import (
 	"github.com/AliceO2Group/Control/common/utils/uid"
 	"github.com/AliceO2Group/Control/core/environment"
 	odcevent "github.com/AliceO2Group/Control/core/integration/odc/event"
+	pb "github.com/AliceO2Group/Control/core/protos"
 	"github.com/sirupsen/logrus"
 
 	"verif/harness/internal/gen"
@@ -205,6 +206,32 @@ func oevTerms(items []item) []string {
 
 // ---------------------------------------------------------------- running one request
 
+// The outcome of a transition body (task commands, deployment) is an oracle of the model.  It is
+// read off the "tasks_<EVENT>" step event of the stream, so that a body that failed for a reason
+// the harness did not inject (e.g. a deployment that timed out) is an input, not a mismatch.
+func observedBodyFailures(items []item) []string {
+	var out []string
+	for _, it := range items {
+		if it.Kind == "E" && it.Err && it.Name == "transition step finished" && strings.HasPrefix(it.Step, "tasks_") {
+			out = append(out, strings.TrimPrefix(it.Step, "tasks_"))
+		}
+	}
+	return out
+}
+
+func withObservedBodies(f faults, items []item) faults {
+	g := faults{Hooks: f.Hooks}
+	seen := map[string]bool{}
+	for _, b := range append(append([]string{}, f.Bodies...), observedBodyFailures(items)...) {
+		if !seen[b] && b != "GO_ERROR" {
+			seen[b] = true
+			g.Bodies = append(g.Bodies, b)
+		}
+	}
+	sort.Strings(g.Bodies)
+	return g
+}
+
 func (w *world) setFaults(f faults, on bool) {
 	for _, h := range f.Hooks {
 		w.rec.SetFail(h, on)
@@ -315,7 +342,7 @@ func (w *world) runStep(env *environment.Environment, st stepIn) (string, stepOb
 		ob.Reply = r.State
 	}
 	robs := fmt.Sprintf("(mkRobs %d %s %s %s %s)", ob.Code, optSt(r.HasReply, r.State), gen.Bool(listed), stTerm(final), gen.List(tr))
-	term := fmt.Sprintf("(%s, %s, %s, %s)", reqTerm(st.Req), oracleTerm(st.Faults), robs, gen.List(oevTerms(items)))
+	term := fmt.Sprintf("(%s, %s, %s, %s)", reqTerm(st.Req), oracleTerm(withObservedBodies(st.Faults, items)), robs, gen.List(oevTerms(items)))
 	return term, ob
 }
 
@@ -332,11 +359,18 @@ func (w *world) newEnv(create string) (*environment.Environment, error) {
 		defer func() { fmt.Fprintf(os.Stderr, "newEnv %s %s\n", create, time.Since(t0)) }()
 	}
 	if create == "api" {
-		id, err := w.sim.Envman.CreateEnvironment(wfName, map[string]string{}, false, uid.New(), false)
-		if err != nil {
-			return nil, err
+		// CreateEnvironment deploys and configures; its deployment wait can miss the last status
+		// notification (non-blocking fan-out) and time out: try again, that is not C01's subject
+		var err error
+		for try := 0; try < 4; try++ {
+			var id uid.ID
+			id, err = w.sim.Envman.CreateEnvironment(wfName, map[string]string{}, false, uid.New(), false)
+			if err == nil {
+				return w.sim.Envman.Environment(id)
+			}
+			_, _ = w.sim.Rpc.CleanupTasks(context.Background(), &pb.CleanupTasksRequest{})
 		}
-		return w.sim.Envman.Environment(id)
+		return nil, err
 	}
 	return w.newListed()
 }
@@ -706,7 +740,7 @@ func (w *world) caseConc(in concIn) gen.Case {
 	if !gated {
 		kind = "conc-ungated"
 	}
-	return gen.Case{Term: fmt.Sprintf("CConc %s %s %s %s [] %s %s %s", stTerm(st0), oracleTerm(in.Faults), gen.List(ths),
+	return gen.Case{Term: fmt.Sprintf("CConc %s %s %s %s [] %s %s %s", stTerm(st0), oracleTerm(withObservedBodies(in.Faults, items)), gen.List(ths),
 		gen.NList(macro), gen.List(lt), stTerm(final), gen.Bool(listed)), Kind: kind, Input: in,
 		Obs: map[string]interface{}{"results": results, "log": plain, "final": final, "listed": listed, "sections": macro}}
 }
